@@ -208,6 +208,14 @@ class Unit:
                 t = f'(assoc_mem {k} {m})'
                 return self.coerce(t if isinstance(op, ast.In) else f'(negb {t})', 'bool', want)
             raise Untranslatable('compare')
+        if isinstance(e, ast.Subscript) and isinstance(e.slice, ast.Constant) and isinstance(e.slice.value, int) \
+                and isinstance(e.value, ast.Attribute):
+            t, ty = self.expr(e.value.value, env)
+            key = (ty, f'{e.value.attr}[{e.slice.value}]')
+            if key not in self.spec['fields']:
+                raise Untranslatable(f'item {key[1]} of {ty}')
+            fn, fty = self.spec['fields'][key]
+            return self.coerce(f'({fn} {t})', fty, want)
         if isinstance(e, ast.Subscript):
             m, mty = self.expr(e.value, env)
             k, kty = self.expr(e.slice, env)
@@ -458,6 +466,24 @@ class Unit:
                 raise Untranslatable(f'context[...] = value of type {ty}')
             s2 = self.new('s')
             return (f'(let {s2} := set_ctx {s} (sset {coq_str(st.targets[0].slice.value)} {v} (ctx {s})) in '
+                    f'{cont(s2, env)})')
+        # if context.get(K) is not V: context[K] = V      (write unless the very same object is there)
+        if isinstance(st, ast.If) and not st.orelse and len(st.body) == 1 and isinstance(st.test, ast.Compare) \
+                and len(st.test.ops) == 1 and isinstance(st.test.ops[0], ast.IsNot) \
+                and isinstance(st.test.left, ast.Call) and ast.unparse(st.test.left.func) == 'context.get' \
+                and len(st.test.left.args) == 1 and not st.test.left.keywords \
+                and isinstance(st.body[0], ast.Assign) and len(st.body[0].targets) == 1 \
+                and isinstance(st.body[0].targets[0], ast.Subscript) \
+                and ast.unparse(st.body[0].targets[0].value) == 'context' \
+                and ast.unparse(st.body[0].targets[0].slice) == ast.unparse(st.test.left.args[0]) \
+                and ast.unparse(st.body[0].value) == ast.unparse(st.test.comparators[0]) \
+                and 'same_object' in self.spec and mode[0] in ('eff', 'effv'):
+            kx, kty = self.expr(st.test.left.args[0], env)
+            v, vty = self.expr(st.test.comparators[0], env)
+            if kty != 'string' or vty != 'val':
+                raise Untranslatable('write-unless-same: types')
+            s2 = self.new('s')
+            return (f'(let {s2} := set_ctx {s} (write_unless_same {self.spec["same_object"]} {kx} {v} (ctx {s})) in '
                     f'{cont(s2, env)})')
         # self.field = v : a field of the decorator object, read later through the callback
         if isinstance(st, ast.Assign) and len(st.targets) == 1 and isinstance(st.targets[0], ast.Attribute) \
@@ -1057,7 +1083,28 @@ STEP_IN = {
     },
     'order': ['set_step_input_context', 'unset_step_input_context'],
 }
-UNITS = [STEPSRUNNER, STEP, RETRY, WHILE, PIPELINE, PYPE, STEP_FOREACH, STEP_RUN, POLL, STEP_IN]
+STEP_COUNTERS = {
+    'file': 'pypyr/dsl.py', 'cls': 'Step', 'section': 'GenStepCounters',
+    'variables': [
+        ('sp', 'step', 'self'),
+        ('k', 'counters', 'the loop state held on self and its decorators while the body runs: '
+                          'self.for_counter, self.while_decorator.while_counter, self.retry_decorator.retry_counter'),
+        ('prim_same_object', 'val -> val -> bool', 'a is b'),
+    ],
+    'attrs': {'while_decorator': ('(s_while sp)', 'option wcfg'), 'retry_decorator': ('(s_retry sp)', 'option rcfg'),
+              'foreach_items': ('(s_foreach sp)', 'option val'), 'for_counter': ('(live_for k)', 'val')},
+    'always_truthy': ('wcfg', 'rcfg'),
+    'same_object': 'prim_same_object',
+    'fields': {('wcfg', 'while_counter'): ('(fun _ : wcfg => live_while k)', 'Z'),
+               ('rcfg', 'retry_counter'): ('(fun _ : rcfg => live_retry k)', 'Z'),
+               ('exn', 'original_config[0]'): ('exn_cfg_key', 'string'),
+               ('exn', 'original_config[1]'): ('exn_cfg_val', 'val')},
+    'ctors': {}, 'obj_methods': {},
+    'methods': {'reset_context_counters': {'kind': 'eff', 'coq': 'gen_reset_context_counters',
+                                           'params': [('call', 'exn')]}},
+    'order': ['reset_context_counters'],
+}
+UNITS = [STEPSRUNNER, STEP, RETRY, WHILE, PIPELINE, PYPE, STEP_FOREACH, STEP_RUN, POLL, STEP_IN, STEP_COUNTERS]
 
 
 def pure_call_hook(unit):
